@@ -12,12 +12,17 @@ Transcription of testtools/testsuite.py lines 65-195.
   no handler) and the `broken-runner` error holder is reported through the same forwarder; `queue.put(test)`
   in `finally`.  Main: `start()` each, then `get · join` until no thread is registered; in the `except:`
   clause `process_result.stop()` (a forwarder control section) for every registered worker, then re-raise.
-* `ConcurrentStreamTestSuite` (*stream* flavour): a worker puts `startTestRun`, its status events
-  (`inprogress`, final status; for a broken runner `inprogress`, the traceback chunks, `fail`) and
-  `stopTestRun` into the queue.  `ExtendedToStreamDecorator.startTestRun` first forwards (the `put`) and
-  *then* assigns `self.shouldStop = False`.  Main forwards `status` items to the caller's result, and
-  pops + joins on `stopTestRun`; in the `except:` clause it sets `shouldStop` of every registered worker's
-  result (no shared-object operation), then re-raises.
+* `ConcurrentStreamTestSuite` (*stream* flavour): for each sub-suite MAIN registers the worker, calls
+  `process_result.startTestRun()` itself - `ExtendedToStreamDecorator.startTestRun` first forwards (the
+  `put` of the `startTestRun` item, a scheduling point of main: `MainPc.announce`) and *then* assigns
+  `self.shouldStop = False` - and only then starts the thread (`MainPc.spawn`).  The worker puts its status
+  events (`inprogress`, final status; for a broken runner `inprogress`, the traceback chunks, `fail`) and
+  `stopTestRun` into the queue.  A worker's program counter still lists all the items that travel under its
+  route code, the first of them (`startTestRun`) being put by main on its behalf before the thread exists.
+  Main forwards `status` items to the caller's result, and pops + joins on `stopTestRun`; in the `except:`
+  clause it sets `shouldStop` of every registered worker's result (no shared-object operation), then
+  re-raises.  (The code enters the worker into `threads` just before `startTestRun()` / `start()`; the model
+  does it in the `start()` step - nothing can raise in between, so this is indistinguishable.)
 * Exceptions reaching main: `make_tests` raises after yielding `k` sub-suites; the `m`-th `queue.get()` is
   interrupted (how a `KeyboardInterrupt` is modelled); the caller's result raises at main's `j`-th call on
   it (stream: a `status` call; suite: a `stop` call of the abort path, which then aborts the abort).
@@ -127,6 +132,7 @@ def progs (i : SInput) : List WProg := progsFrom i 0 i.workers
 /-! ## main -/
 
 inductive MainPc where
+  | announce (k : Nat)     -- stream: parked at the `put` of worker k's `startTestRun` item (`process_result.startTestRun()`)
   | spawn (k : Nat)        -- parked at `start()` of worker k's thread
   | get                    -- parked at `queue.get()`
   | join (w : Nat)         -- parked at `join()` of worker w's thread
@@ -148,7 +154,6 @@ structure CSt where
   pending : Cause := .injected    -- suite: what is re-raised after the stop() calls
   joined : List Nat := []
   liveAtReturn : List Nat := []
-  late : List Nat := []           -- stream: registered workers that had not yet taken their first step when main aborted
   msecs : List Section := []      -- suite: the stop() sections of the abort path, once main has entered it
 deriving Repr, Inhabited
 
@@ -173,12 +178,6 @@ def stopsRaise (mf : List Nat) : Nat → Nat → Bool
   | _, 0 => false
   | k, n + 1 => mf.contains k || stopsRaise mf (k + 1) n
 
-/-- worker `w` is started but has not yet forwarded its `startTestRun` (its first step) -/
-def firstStepPending (s : CSt) (w : Nat) : Bool :=
-  match s.base.pcs[w + 1]? with
-  | some (.put (.startRun _) :: _) => true
-  | _ => false
-
 def setFlags (flags : List Bool) : List Nat → List Bool
   | [] => flags
   | w :: ws => setFlags (flags.set w true) ws
@@ -186,7 +185,7 @@ def setFlags (flags : List Bool) : List Nat → List Bool
 /-- the `except:` clause of `run()` -/
 def abortMain (i : SInput) (s : CSt) (c : Cause) : CSt :=
   match i.flavour with
-  | .stream => finishMain { s with flags := setFlags s.flags s.reg, late := s.reg.filter (firstStepPending s) } (.raised c)
+  | .stream => finishMain { s with flags := setFlags s.flags s.reg } (.raised c)
   | .suite =>
     if s.reg.isEmpty then finishMain s (.raised c)
     else
@@ -199,14 +198,22 @@ def abortMain (i : SInput) (s : CSt) (c : Cause) : CSt :=
 def loopHead (s : CSt) : CSt :=
   if s.reg.isEmpty then finishMain s .returned else { s with mpc := .get }
 
+/-- where main parks next once `make_tests` has yielded sub-suite `k`: stream - at the `put` of
+`process_result.startTestRun()`; suite - at `start()` -/
+def parkPc (i : SInput) (k : Nat) : MainPc :=
+  match i.flavour with
+  | .stream => .announce k
+  | .suite => .spawn k
+
 /-- the `for` loop asks `make_tests` for sub-suite number `k` -/
 def nextSpawn (i : SInput) (s : CSt) (k : Nat) : CSt :=
-  if k < spawnCount i then { s with mpc := .spawn k }
+  if k < spawnCount i then { s with mpc := parkPc i k }
   else if i.mkRaise.isSome then abortMain i s .makeTests
   else loopHead s
 
 def mainEnabled (i : SInput) (s : CSt) : Bool :=
   match s.mpc with
+  | .announce _ => true
   | .spawn _ => true
   | .get => i.intr == some s.ngets || !s.base.queue.isEmpty
   | .join w => workerDone s w
@@ -214,8 +221,17 @@ def mainEnabled (i : SInput) (s : CSt) : Bool :=
   | .abort => enabled s.base 0
   | .done => false
 
+/-- `ExtendedToStreamDecorator.startTestRun`: forward (the `put`), then `self.shouldStop = False` -/
+def flagsAfter (s : CSt) (t : Nat) : List Bool :=
+  match s.base.pcs[t]? with
+  | some (.put (.startRun w) :: _) => s.flags.set w false
+  | _ => s.flags
+
 def stepMain (i : SInput) (s : CSt) : CSt :=
   match s.mpc with
+  | .announce k =>
+    -- main puts worker k's `startTestRun` item (the head of that worker's item list), then clears its stop flag
+    { s with base := stepThread s.base (k + 1), flags := flagsAfter s (k + 1), mpc := .spawn k }
   | .spawn k => nextSpawn i { s with nsp := k + 1, reg := s.reg ++ [k] } (k + 1)
   | .get =>
     if i.intr == some s.ngets then abortMain i { s with ngets := s.ngets + 1 } .interrupt
@@ -244,12 +260,6 @@ def stepMain (i : SInput) (s : CSt) : CSt :=
 def enabledC (i : SInput) (s : CSt) (t : Nat) : Bool :=
   if t = 0 then mainEnabled i s else decide (t - 1 < s.nsp) && enabled s.base t
 
-/-- `ExtendedToStreamDecorator.startTestRun`: forward (the `put`), then `self.shouldStop = False` -/
-def flagsAfter (s : CSt) (t : Nat) : List Bool :=
-  match s.base.pcs[t]? with
-  | some (.put (.startRun w) :: _) => s.flags.set w false
-  | _ => s.flags
-
 /-- thread `t` takes its next step (a no-op if it is not started, finished or blocked) -/
 def stepC (i : SInput) (s : CSt) (t : Nat) : CSt :=
   if t = 0 then (if mainEnabled i s then stepMain i s else s)
@@ -274,7 +284,7 @@ def initC (i : SInput) : CSt :=
                 flags := i.workers.map fun _ => false } 0
 
 /-- enough fuel for every run (see `TTV.Props.C13`) -/
-def fuelC (i : SInput) : Nat := 3 * remaining (initC i).base + 10 * i.workers.length + 4
+def fuelC (i : SInput) : Nat := 3 * remaining (initC i).base + 12 * i.workers.length + 8
 
 def finalC (i : SInput) : CSt := drainC i (fuelC i) (runC i (initC i) i.sched)
 
